@@ -99,6 +99,10 @@ class Sim:
 
     # ---- called from task threads (the baton holder)
     def _park(self, me):
+        if me.killed:
+            # the code under simulation swallowed (or replaced) Killed while unwinding and came back to a sync point:
+            # it must not park again -- nobody would ever wake it
+            raise Killed()
         self._sched_sem.release()
         me.sem.acquire()
         if me.killed:
